@@ -52,6 +52,8 @@ type World struct {
 
 	db      *statedb.DB
 	ghost   statedb.RWTable[*Obj] // a table object that is not registered with db
+	bulk    bool                  // this run builds a backlog of thousands of deleted objects
+	bulkOps int
 	metrics *simMetrics
 	tables  []*TableCtx
 	nReg    int // tables whose registration has returned
@@ -196,6 +198,11 @@ func (w *World) run(full bool) {
 	cfg := simcore.Config{KeepFullLog: full, InBubble: true}
 	w.faultsOn = c.Choose(5) != 0 // one run in five is fault free
 	cfg.StepLimit = p.StepLimit
+	if p.BulkOneIn > 0 && c.Choose(p.BulkOneIn) == 0 {
+		// a run with a backlog: thousands of objects inserted and deleted under lagging change iterators
+		w.bulk = true
+		cfg.StepLimit = 40000
+	}
 	cfg.Strategy = c.Weighted([]int{5, 3, 2})
 	cfg.StickNum = 1 + c.Choose(8)
 	cfg.StickDen = 10
